@@ -67,7 +67,7 @@ fn tok_qv(v: &QV, h: &Handles) -> Value {
 
 // ------------------------------------------------------------------------------------------------ renderer
 /// which literal slots become $parameters: "" (none) | "where" | "ret" | "with" | "order" | "inline" | "unwind" |
-/// "list" | "skiplimit" | "all"
+/// "list" | "elem" | "skiplimit" | "all"
 struct Rend<'a> {
     pm: &'a str,
     params: HashMap<String, PropertyValue>,
@@ -98,8 +98,18 @@ impl<'a> Rend<'a> {
             "notnull" => format!("({} IS NOT NULL)", self.expr(&x["a"], pos)),
             "in" => format!("({} IN {})", self.expr(&x["a"], pos), self.expr(&x["b"], pos)),
             "list" => {
-                let p = if self.pm == "list" { "list" } else { pos };
-                let items: Vec<String> = x["items"].as_array().unwrap().iter().map(|i| self.expr(i, p)).collect();
+                let its = x["items"].as_array().unwrap();
+                let all_lit = its.iter().all(|i| gs(i, "e") == "lit");
+                // class "list" (and "unwind" for the UNWIND operand): the whole list literal is one parameter;
+                // class "elem": every element is a parameter
+                if !self.shape && all_lit && (self.pm == "list" || self.pm == "all" || (self.pm == "unwind" && pos == "unwind")) {
+                    let name = format!("p{}", self.params.len());
+                    let arr = its.iter().map(|i| pv_of(&i["v"]).unwrap_or(PropertyValue::Null)).collect();
+                    self.params.insert(name.clone(), PropertyValue::Array(arr));
+                    return format!("${name}");
+                }
+                let p = if self.pm == "elem" { "elem" } else { pos };
+                let items: Vec<String> = its.iter().map(|i| self.expr(i, p)).collect();
                 format!("[{}]", items.join(", "))
             }
             "cstar" => "count(*)".to_string(),
@@ -419,7 +429,7 @@ fn run(scripts: &str, trace: &str, opts: &Opts) -> Res<()> {
                     if mode == "c35" {
                         // every position class that holds at least one literal of this query, and all of them together
                         let mut pouts = Vec::new();
-                        for pm in ["where", "ret", "with", "order", "inline", "unwind", "list", "skiplimit", "all"] {
+                        for pm in ["where", "ret", "with", "order", "inline", "unwind", "list", "elem", "skiplimit", "all"] {
                             let (ptext, params) = render(q, pm);
                             if params.is_empty() || (pm == "all" && pouts.len() < 2) {
                                 continue;
